@@ -38,7 +38,7 @@ verus! {
 //%include spec/batch.rs
 //%include prelude/batchspecs.rs
 
-//%slice parser.rs batch fn parse_mapping ;; let mut multiple = false; ;; group.extend(rest); ;; fn batch(starts_with: Vec<Identifier>, contains: Vec<Identifier>, ends_with: Vec<Identifier>, exact: Vec<Identifier>, regex: Vec<Identifier>, rest: Vec<Expression>, f: String, cast: bool) -> crate::Result<(Vec<Expression>, bool)> ;; Ok((group, multiple))
+//%slice parser.rs batch fn parse_mapping ;; afterblock:for value in s { ;; group.extend(rest); ;; fn batch(starts_with: Vec<Identifier>, contains: Vec<Identifier>, ends_with: Vec<Identifier>, exact: Vec<Identifier>, regex: Vec<Identifier>, rest: Vec<Expression>, f: String, cast: bool) -> crate::Result<(Vec<Expression>, bool)> ;; Ok((group, multiple))
 
 //%slice parser.rs seqtail fn parse_mapping ;; if let Expression::Match(Match::All, _) | Expression::Match(Match::Of(_), _) = &e { ;; Expression::BooleanGroup(BoolSym::Or, group) +1 ;; fn seqtail(e: Expression, misc: Option<ModSym>, group: Vec<Expression>, multiple: bool, boolean: bool, mapping: bool, number: bool, string: bool) -> crate::Result<Expression> ;; Ok(@)
 
